@@ -279,6 +279,7 @@ func runIxScenario(d *Driver, id string, sc ixScenario, res *Result) *seqFail {
 	}
 
 	midUsed := false
+	var firstCorr *seqFail // a model/implementation disagreement is remembered; the scenario continues under the monitors alone
 	invalidate := func(i int, op ixOp, faultAbs int, mid bool) (fail *seqFail, failed bool) {
 		labels := make([]string, len(op.Labels))
 		for j, l := range op.Labels {
@@ -418,8 +419,9 @@ func runIxScenario(d *Driver, id string, sc ixScenario, res *Result) *seqFail {
 			okb = 0
 		}
 		impl := fmt.Sprintf("n=%d ok=%d calls=%d", n, okb, run.calls)
-		if r != impl {
-			return &seqFail{"correspondence", "", "inval:result", fmt.Sprintf("op #%d %s: impl %q model %q", i, op, impl, r), i, nil}, err != nil
+		if r != impl && firstCorr == nil {
+			firstCorr = &seqFail{"correspondence", "", "inval:result", fmt.Sprintf("op #%d %s: impl %q model %q", i, op, impl, r), i, nil}
+			midUsed = true
 		}
 		return nil, err != nil
 	}
@@ -476,11 +478,12 @@ func runIxScenario(d *Driver, id string, sc ixScenario, res *Result) *seqFail {
 		}
 		if !midUsed {
 			if a, b := implDump(), modelDump(); a != b {
-				return &seqFail{"correspondence", "", "inval:state", fmt.Sprintf("after op #%d %s: impl %q model %q", i, op, a, b), i, nil}
+				firstCorr = &seqFail{"correspondence", "", "inval:state", fmt.Sprintf("after op #%d %s: impl %q model %q", i, op, a, b), i, nil}
+				midUsed = true
 			}
 		}
 	}
-	return nil
+	return firstCorr
 }
 
 func runC15(o Opts) *Result {
@@ -493,6 +496,7 @@ func runC15(o Opts) *Result {
 	}
 	defer d.Close()
 	uniq := map[uint64]bool{}
+	nCorr, nMon := 0, 0
 	for idx := 0; idx < o.N; idx++ {
 		if o.Only >= 0 && idx != o.Only {
 			continue
@@ -513,6 +517,12 @@ func runC15(o Opts) *Result {
 		if f == nil {
 			continue
 		}
+		if f.kind == "correspondence" {
+			nCorr++
+			if nCorr > 3 {
+				continue // keep looking for a scenario on which a monitor fails
+			}
+		}
 		min := sc
 		n := 0
 		for i := len(min.Ops) - 1; i >= 0; i-- {
@@ -527,7 +537,10 @@ func runC15(o Opts) *Result {
 			Replay: map[string]interface{}{"engine": "inval", "profile": "c15", "seed": o.Seed, "index": idx, "caches": min.Caches,
 				"ops": min.opsString(), "original_ops": sc.opsString(), "driver_log_tail": tail(d.Log, 20),
 				"rerun": fmt.Sprintf("harness inval -profile c15 -seed %d -only %d", o.Seed, idx)}})
-		if len(res.Violations) >= 5 {
+		if f.kind != "correspondence" {
+			nMon++
+		}
+		if nMon >= 3 {
 			break
 		}
 	}
